@@ -124,6 +124,10 @@ Theorem C03_duration_identity_eps0 : forall a b,
 Proof. exact dur_identity_eps0. Qed.
 
 (* non-vacuity: the hypotheses are met by concrete, non-trivial segments *)
+(* the middle of a segment, in doubled ticks (the check compares 2 * middle exactly) *)
+Theorem C03_middle_is_the_midpoint : forall a, middle2 a = st a + en a.
+Proof. reflexivity. Qed.
+
 Example C03_nonvacuous :
   nonempty 4 (0, 10) = true /\ nonempty 4 (7, 20) = true /\
   intersects 4 (0, 10) (7, 20) = false /\ intersects 4 (0, 10) (5, 20) = true /\
@@ -161,3 +165,4 @@ Print Assumptions C03_lt_transitive.
 Print Assumptions C03_lt_total.
 Print Assumptions C03_duration_identity_upto_eps.
 Print Assumptions C03_duration_identity_eps0.
+Print Assumptions C03_middle_is_the_midpoint.
